@@ -194,7 +194,7 @@ PROPS["C11"] = dict(
           "each next(), after a failure and after the end of the stream every held item is re-read and compared with an owned "
           "copy; cases are classified by what was observed (did the transport deliver bytes while items were held), not "
           "by intention; distinct = hash of (sizes, kinds, delivery, seed)"
-          " ; in half of the same-read cases stray terminators (empty frames) sit inside the burst and / or a frame of a later exchange waits in the transport behind it (damage is then reported under the same-read signature whether or not a read happened); every seventh case has replies with a byte that is not valid UTF-8; plus a real-socket layer (tokio current-thread / multi-thread and smol transports over real Unix sockets, DESIGN 2.4): a scripted peer writes the whole burst before the client asks for the first item (ordered by a channel), the client keeps and re-reads every item (native and ASan)"),
+          " ; in half of the same-read cases stray terminators (empty frames) sit inside the burst and / or a frame of a later exchange waits in the transport behind it (damage is then reported under the same-read signature whether or not a read happened); every seventh case has replies with a byte that is not valid UTF-8"),
     oracle=("native: held text == copy taken when yielded; ASan: no heap-use-after-free report; Miri: no Stacked-Borrows / "
             "use-after-free report. Same-read and available-burst delivery must be clean under all three; separate-read "
             "delivery is the recorded known finding"),
@@ -210,12 +210,6 @@ PROPS["C11"] = dict(
         dict(layer="miri", monitor="c11", tag="separate", extra=["--group", "separate"], shards_quick=1, shards_thorough=2, expect_dies=True),
         dict(layer="asan", monitor="c11", tag="same", extra=["--group", "same"], shards_quick=2, shards_thorough=8),
         dict(layer="asan", monitor="c11", tag="separate", extra=["--group", "separate"], shards_quick=1, shards_thorough=4, expect_dies=True),
-        # tokio / smol transports over real Unix sockets: the peer has written the whole burst before the first item is
-        # asked for (ordered by joining on the writer, not by timing); items are held and re-read
-        dict(layer="native", package="rt", monitor="c11", tag="real", shards_quick=4, shards_thorough=16,
-             budget_quick=8000, budget_thorough=200_000, timeout_quick=900),
-        dict(layer="asan", package="rt", monitor="c11", tag="real", shards_quick=2, shards_thorough=8,
-             budget_quick=1600, budget_thorough=16_000, timeout_quick=900),
     ],
 )
 
